@@ -1,6 +1,7 @@
 package main
 
 import (
+	"context"
 	"encoding/json"
 	"errors"
 	"fmt"
@@ -235,6 +236,21 @@ func runC04(p []PStmt, salt uint64) Case {
 	detailsOK := snapDef(dd) == before
 	if !detailsOK {
 		notes = append(notes, "mutating a Details map after Define changed the definition")
+	}
+	// ... also when the map is empty (but not nil) at the time it is handed in, and when it is
+	// handed to a derived factory / a context
+	empty := errdef.Details{}
+	de := errdef.Define("with-empty-details", errdef.NoTrace(), empty)
+	viaWith := c04Probe.WithOptions(errdef.Details{})
+	ctxDetails := errdef.Details{}
+	viaCtx := c04Probe.With(errdef.ContextWithOptions(context.Background(), ctxDetails))
+	beforeE, beforeW, beforeC := snapDef(de), snapDef(viaWith), snapDef(viaCtx)
+	errE := w.snapErr(de.New("e"))
+	empty["added"] = 1
+	ctxDetails["added"] = 2
+	if snapDef(de) != beforeE || snapDef(viaWith) != beforeW || snapDef(viaCtx) != beforeC || w.snapErr(de.New("e")) != errE {
+		detailsOK = false
+		notes = append(notes, "adding to an (empty) Details map after it was handed in changed a definition")
 	}
 	// resolver.New: the definition list is caller-owned (duplicates force a compaction)
 	resolverOK := true
